@@ -38,7 +38,7 @@ def configs(tier):
                         # the same model reached through edits (rejected calls in between), start state set through the Model
                         out.append(dict(spec=sp, grid=g, safe=safe, bound=2, kind='run', route='edited'))
             for safe in (False, True):
-                out.append(dict(spec=sp, grid='u3', safe=safe, bound=2, kind='bfs'))
+                out.append(dict(spec=sp, grid='u3', safe=safe, bound=2, kind='bfs', start_repr='strided' if safe else 'int'))
     # larger than the small alphabets: counts >= 50, 7 species / 8-10 channels, 11 and 33 time points
     for sp in big_networks():
         many = len(sp['reactions']) >= 8
@@ -66,6 +66,14 @@ def check_trace(c, impl, net, cfg, times, ref, x0=None, t0=0.0, first=[False]):
         from ..util import Stream
         with warnings.catch_warnings():
             warnings.simplefilter('ignore')
+            # a different model of the same shape (every reaction reversed) goes through the entry point first: whatever the entry
+            # point or the simulator keeps between calls must not reach the run that follows
+            if not hasattr(impl, 'decoy'):
+                from ..modelspec import to_model
+                rev = [dict(reactants=list(r_.get('products', [])), products=list(r_.get('reactants', [])), kind='massaction', k=(r_['k'] if isinstance(r_.get('k'), (int, float)) else 1.3)) for r_ in cfg['spec']['reactions']]   # same time scale as the model
+                impl.decoy = to_model(dict(cfg['spec'], reactions=rev, rules=[]))
+            with Stream([0.3, 0.6, 0.3, 0.6]):
+                py_simulate_model(np.array(times, dtype=float), Model=impl.decoy, stochastic=True, safe=cfg['safe'], return_dataframe=False)
             with Stream(ref['us']) as st:
                 res = py_simulate_model(np.array(times, dtype=float), Model=impl.model, stochastic=True, safe=cfg['safe'], return_dataframe=False)
         got = dict(rows=impl.rows(res.py_get_result()), consumed=st.consumed, overrun=st.overrun)
@@ -85,6 +93,7 @@ def check_trace(c, impl, net, cfg, times, ref, x0=None, t0=0.0, first=[False]):
 def run_config(c, cfg):
     sp = cfg['spec']
     impl = e1.Impl(sp, cfg['safe'], edited=(cfg.get('route') == 'edited'))
+    impl.start_repr = cfg.get('start_repr', 'float')
     net = RS.Net(sp, 'stoch', cfg['safe'])
     states = set()
     outcomes = set()
@@ -131,7 +140,7 @@ def run(ctx):
                 'reference direct-method sampler is explored to the cost bound (every waiting-time draw: cross / just after '
                 'now / mid / just before the next grid time / far; every reaction draw: middle and both edges of every live '
                 'bucket) and every complete trace is replayed on SSASimulator (directly, through py_simulate_model(stochastic=True), and on a model reached through edits with rejected create_reaction calls in between and its start state set through Model.set_species after the interface was built) under the scripted stream; plus the same '
-                'exploration (bound 2) started from every reachable state, on and between grid times; plus (bound 2) six larger networks (counts 50-200, seven species / eight channels, ten channels) on grids of 11 (thorough: 3, 11, 33) points, and (bound 3) three networks whose rates are of magnitude 1e-11 / 1e9 (grids scaled accordingly) or mix 1e-12 with 1. states = distinct '
+                'exploration (bound 2) started from every reachable state, on and between grid times (the start state handed over as an int64 array or as a strided view); through the entry point every run is preceded by a run of a different model of the same shape; plus (bound 2) six larger networks (counts 50-200, seven species / eight channels, ten channels) on grids of 11 (thorough: 3, 11, 33) points, and (bound 3) three networks whose rates are of magnitude 1e-11 / 1e9 (grids scaled accordingly) or mix 1e-12 with 1. states = distinct '
                 '(state, grid index) pairs visited by the reference; transitions = draws; a configuration is non-trivial '
                 'when its traces have more than one distinct outcome.')
     ctx.assumptions = ['uniform -> (waiting time, reaction) mapping of the direct method: tau = -ln(u)/Lambda, '
